@@ -94,6 +94,28 @@ func orderPlan(plan, order []int64) []int64 {
 	return out
 }
 
+func coqAttempts(c *callSpec) string {
+	seen := map[int64]bool{}
+	var it []string
+	add := func(p int64) {
+		if seen[p] {
+			return
+		}
+		seen[p] = true
+		a1, a2 := c.attempts(p)
+		if !a1 || !a2 {
+			it = append(it, fmt.Sprintf("(%s, (%s, %s))", cf.Z(p), cf.Bool(a1), cf.Bool(a2)))
+		}
+	}
+	for _, p := range c.NoCreate {
+		add(p)
+	}
+	for _, f := range c.Faults {
+		add(f.P)
+	}
+	return cf.List(it)
+}
+
 func coqBeh(b behSpec) string {
 	q := "None"
 	if b.Quota >= 0 {
@@ -218,10 +240,10 @@ func coqCase(cs caseSpec, o obs) string {
 			clm = append(clm, fmt.Sprintf("(%s, %s)", cf.Z(p), cf.List(claims[p])))
 		}
 		calls = append(calls, fmt.Sprintf("{| cc_trig := %s; cc_arg := %s; cc_handler := {| hd_setup_ok := %s; hd_cleanup_ok := %s; hd_beh := %s; hd_default := {| h_quota := None; h_mark := 0%%nat |} |}; "+
-			"cc_coords := %s; cc_joins := %s; cc_syncs := %s; cc_fetches := %s; cc_nocreate := %s; cc_hbs := %s; cc_commits := %s; cc_started := %s; cc_consumed := %s; cc_produce := %s; "+
+			"cc_coords := %s; cc_joins := %s; cc_syncs := %s; cc_fetches := %s; cc_attempts := %s; cc_hbs := %s; cc_commits := %s; cc_started := %s; cc_consumed := %s; cc_produce := %s; "+
 			"cc_fired := %s; cc_main := %s; cc_claims := %s; cc_hbids := %s |}",
 			coqTrig(call.Trigger), cf.Nat(call.TrigArg), cf.Bool(call.SetupOK), cf.Bool(call.CleanupOK), cf.List(beh),
-			coqBools(co.Coords), cf.List(joins), cf.List(syncs), coqBools(co.Fetches), cf.ZList(call.NoCreate), cf.List(hbs), coqBools(co.Commits),
+			coqBools(co.Coords), cf.List(joins), cf.List(syncs), coqBools(co.Fetches), coqAttempts(&call), cf.List(hbs), coqBools(co.Commits),
 			cf.ZList(started), cf.List(cons), cf.ZList(call.Produce), cf.Bool(co.Fired), cf.List(main), cf.List(clm), cf.List(hbids)))
 	}
 	var tail []string
@@ -297,6 +319,9 @@ func main() {
 		if i%4 == 3 {
 			cases = append(cases, genNoSkip(r))
 			kinds = append(kinds, "noskip")
+		} else if i%12 == 5 {
+			cases = append(cases, genTransient(r))
+			kinds = append(kinds, "transient")
 		} else {
 			cases = append(cases, genCase(r))
 			kinds = append(kinds, "random")
@@ -365,6 +390,11 @@ func corpus() []caseSpec {
 		// a plan naming a partition twice: the second ManagePartition fails, no hooks run
 		{Retries: 0, HbRetries: 0, Attempts: 1, InitialOldest: true, Parts: p2, Close: true, Leave: "ok", Calls: []callSpec{
 			{Plan: []int64{1, 0, 0}, SetupOK: true, CleanupOK: true, Trigger: "ctx-steady"}}},
+		// seeded C07-2 (missed at first): a valid committed offset, the leader refuses ListOffsets twice while the claim is
+		// opened, Initial = newest: the claim must not be started at the initial position; the next session resumes at 2
+		{Retries: 1, HbRetries: 1, Attempts: 2, Parts: []partSpec{{Topic: 0, P: 0, Oldest: 0, Newest: 6, Stored: 2}}, Close: true, Leave: "ok", Calls: []callSpec{
+			{Plan: []int64{0}, SetupOK: true, CleanupOK: true, Beh: []behSpec{{P: 0, Quota: -1, Mark: 1}}, Trigger: "none", Faults: []faultSpec{{P: 0, From: 0, To: 2, Kind: "notleader"}}},
+			{Plan: []int64{0}, SetupOK: true, CleanupOK: true, Beh: []behSpec{{P: 0, Quota: -1, Mark: 2}}, Trigger: "ctx-steady"}}},
 		// committed offset out of range: the claim starts at the initial position
 		{Retries: 0, HbRetries: 0, Attempts: 1, InitialOldest: true, Parts: []partSpec{{Topic: 0, P: 0, Oldest: 3, Newest: 7, Stored: 1}, {Topic: 0, P: 1, Oldest: 0, Newest: 4, Stored: 9}}, Calls: []callSpec{
 			{Plan: []int64{0, 1}, SetupOK: true, CleanupOK: true, Beh: []behSpec{{P: 0, Quota: -1, Mark: 2}, {P: 1, Quota: -1, Mark: 2}}, Trigger: "ctx-steady"}}},
